@@ -38,6 +38,57 @@ theorem subsetVector_unique (valids : List Bool) (j : Nat) :
   refine ⟨fun hj => ⟨_, subset_singleton valids j hj, subset_cycleOf valids j hj⟩, fun hj => ?_⟩
   exact subset_none_of_ge valids j hj
 
+/-- **Integer flags select exactly like booleans** (seeded change C16-6: `subset_vect[~valids] = -1` on 0/1
+    integers).  `subsetVectorFlags` is `get_subset_vector` on a numeric selection vector as the loop reads it
+    (`valids[ii] == 0`).  For EVERY integer vector it is the subset vector of the Boolean vector "flag ≠ 0";
+    in particular for the 0/1 integer coding of a Boolean selection (the library's own `is_good` metric,
+    anything stored with `dtype=int`) it is the subset vector of that selection — so every theorem of this
+    file about `subsetVector valids`, `chainVector (subsetVector valids)` and the maps built on them holds
+    verbatim for the integer-coded selection. -/
+theorem integer_flags_select_like_booleans :
+    (∀ flags : List Int, subsetVectorFlags flags = subsetVector (flags.map fun x => decide (x ≠ 0))) ∧
+    (∀ valids : List Bool, subsetVectorFlags (valids.map fun b => if b then 1 else 0) = subsetVector valids) := by
+  have h1 : ∀ (flags : List Int) (c : Nat),
+      subsetFromFlags c flags = subsetFrom c (flags.map fun x => decide (x ≠ 0)) := by
+    intro flags
+    induction flags with
+    | nil => intro c; rfl
+    | cons x t ih =>
+      intro c
+      by_cases hx : x = 0
+      · simp [subsetFromFlags, subsetFrom, hx, ih]
+      · simp [subsetFromFlags, subsetFrom, hx, ih]
+  refine ⟨fun flags => h1 flags 0, fun valids => ?_⟩
+  unfold subsetVectorFlags
+  rw [h1, List.map_map]
+  congr 1
+  conv => rhs; rw [← List.map_id valids]
+  apply List.map_congr_left
+  intro b _
+  cases b <;> simp
+
+/-- spelled out on the integer flags themselves: entry k of the subset vector is the number of non-zero flags
+    before k when flag k is non-zero and -1 when it is 0 — for every position, not only the last two -/
+theorem integer_flags_spec (flags : List Int) (k : Nat) (hk : k < flags.length) :
+    (subsetVectorFlags flags)[k]? =
+      some (if flags[k]! ≠ 0 then ((((flags.take k).filter (· ≠ 0)).length : Nat) : Int) else -1) := by
+  rw [integer_flags_select_like_booleans.1, subsetVector_spec _ k (by simpa using hk)]
+  have hk' : k < (flags.map fun x => decide (x ≠ 0)).length := by simpa using hk
+  rw [getElem!_pos _ k hk', getElem!_pos flags k hk, List.getElem_map, ← List.map_take, List.count_eq_length_filter,
+    List.filter_map]
+  have hlen : (List.map (fun x : Int => decide (x ≠ 0))
+      (List.filter ((fun x => x == true) ∘ fun x : Int => decide (x ≠ 0)) (List.take k flags))).length =
+      (List.filter (fun x : Int => decide (x ≠ 0)) (List.take k flags)).length := by
+    rw [List.length_map]
+    congr 1
+    apply List.filter_congr
+    intro x _
+    simp
+  by_cases h0 : flags[k] = 0
+  · simp [h0]
+  · simp only [ne_eq, h0, not_false_eq_true, decide_true, ite_true]
+    rw [hlen]
+
 /-- one chain entry per subset cycle -/
 theorem chainVector_length (valids : List Bool) :
     (chainVector (subsetVector valids)).length = valids.count true := chain_length valids
@@ -607,5 +658,10 @@ example : WF (Cycles.paint (Cycles.cvSegs wEx (fun _ => true) [1, 3, 6, 0, 2, 6,
 example : Cycles.paint (Cycles.cvSegs wEx (fun r => r.length != 2) [1, 3, 6, 0, 2, 7, 8, 9]) = [0, 0, 0, -1, -1, 1, 1, 1] := by decide
 example : WF (Cycles.paint (Cycles.cvSegs wEx (fun r => r.length != 2) [1, 3, 6, 0, 2, 7, 8, 9])) 2 :=
   wf_of_bounded _ 2 (by decide) (by decide) (by decide) (by decide)
+
+-- the witness of seeded change C16-6 (unselected cycles not among the last two): 0/1 integer flags = Boolean selection
+example : subsetVectorFlags [1, 1, 0, 1, 0, 0, 1, 1, 1, 0, 1, 1] = [0, 1, -1, 2, -1, -1, 3, 4, 5, -1, 6, 7] := by decide
+example : subsetVectorFlags [1, 1, 0, 1, 0, 0, 1, 1, 1, 0, 1, 1] =
+    subsetVector [true, true, false, true, false, false, true, true, true, false, true, true] := by decide
 
 end C16
